@@ -16,7 +16,8 @@ from .c01 import fingerprint
 ID = "C12"
 LEVEL = "exploration"
 RULE = ("seeded single-connection HTTP/2 workloads: 1-12 concurrent requests; server script: MAX_CONCURRENT_STREAMS in "
-        "{absent,1,2,3,100,200}, delayed first SETTINGS, responses held and released fifo/reverse/interleaved, DATA "
+        "{absent,1,2,3,100,200}, delayed first SETTINGS, responses held and released fifo/reverse/interleaved, the first "
+        "request answered only after a later one (long-poll dependency), DATA "
         "frame size, RST_STREAM / SETTINGS(MAX_CONCURRENT_STREAMS up, down, below in-flight) / PING at the head or end "
         "of request n, frames cut into reads (whole, 7 bytes, random); callers read, stall, abandon after headers or "
         "after a partial body; distinct+non-trivial = new interleaving fingerprint with >= 2 streams open at once")
@@ -56,10 +57,19 @@ def gen_h2_spec(r: random.Random, flavor: str) -> dict:
                    "settings-below": 1}[do]
             actions.append({"when": when, "do": "settings", "settings": {"3": val}})
     script["actions"] = actions
-    spec = gen_spec(r, flavor, proto="h2", proxy=None, n_origins=1, max_connections=1, n_callers=n, reqs=r.choice([1, 1, 2]),
+    reqs = r.choice([1, 1, 2])
+    resp_delay = r.choice([0.0, 0.1])
+    if "hold" not in script and n >= 2 and (mcs or 1) >= 2 and r.random() < 0.5:
+        # a dependency between streams (long-poll): the FIRST request is answered only after a LATER request, sent by a
+        # different caller, has been answered. No stream may keep another one from being read.
+        script["defer"] = {"0": r.randrange(1, n)}
+        reqs = 1
+        resp_delay = 0.1
+        kinds.append("defer")
+    spec = gen_spec(r, flavor, proto="h2", proxy=None, n_origins=1, max_connections=1, n_callers=n, reqs=reqs,
                     behaviours=["read", "read", "read", "partial", "head-only", "post"], fault_ops=[], latency="zero",
-                    think=r.choice([0.0, 0.0, 0.2]), pool_timeout=None, resp_delay=r.choice([0.0, 0.1]),
-                    max_keepalive=None, keepalive_expiry=None, h2_script=script,
+                    think=r.choice([0.0, 0.0, 0.2]) if "defer" not in script else 0.0, pool_timeout=None, resp_delay=resp_delay,
+                    max_keepalive=None, keepalive_expiry=None, h2_script=script, retries=0, connect_fail=0.0,
                     segmentation=r.choice(["all", "all", "random", "bytes"]))
     spec["action_kinds"] = kinds
     if script["data_chunk"] < 100 or spec["segmentation"] == "bytes":
